@@ -777,7 +777,7 @@ func sortedKinds(k string) string {
 func TestC41(t *testing.T) {
 	r := mon.Start(t, "C41")
 	defer r.Finish()
-	r.Rule("scenario = fresh TCPDialer{Concurrency 1-4, fake Resolver} against 1-4 loopback endpoints on private 127.x.y.z addresses sharing a port, each accepting / refusing / hanging (listen backlog 0, pre-filled); 0-9 sequential dials (rotation) then 8-64 concurrent DialTimeout/DialDualStackTimeout calls with timeout 50-300 ms (2 s for some hang-free sets); resolver ok / hangs until ctx ends / fails; optional second host name over the same addresses, optional DisableDNSResolution. distinct = (multiset of endpoint kinds, N, resolver mode, flags, set of outcomes seen); non-trivial = at least two addresses or a hanging endpoint")
+	r.Rule("scenario = fresh TCPDialer{Concurrency 1-4, fake Resolver} against 1-4 loopback endpoints on private 127.x.y.z addresses sharing a port, each accepting / refusing / hanging (listen backlog 0, pre-filled); 0-9 sequential dials (rotation) then 8-64 concurrent DialTimeout/DialDualStackTimeout calls with timeout 50-300 ms (2 s for some hang-free sets); resolver ok / hangs until ctx ends / fails; optional second host name over the same addresses, optional DisableDNSResolution. Plus 9 split-deadline dials: resolver answers after 0.3/0.5/0.75 x timeout (6 s), hanging endpoint, cache miss / after FlushDNSCache / refresh of an expired entry. distinct = (multiset of endpoint kinds, N, resolver mode, flags, set of outcomes seen); non-trivial = at least two addresses or a hanging endpoint")
 	r.Assume("slot counter is driven by fasthttp's own hook points dial.slot.acquired/released (trusted to sit right after the slot is taken / right before it is returned); the SYN_SENT count from /proc/net/tcp is the independent cross-check")
 	r.Assume("a dial may legitimately end in ErrDialTimeout whenever the machine is slow; only refusals, successes and lateness are judged. Lateness = the dial came back more than 5 s after both its timeout and a plain time.Sleep(timeout) started next to it, while the process heartbeat (20 ms ticks) was never more than 1 s late; otherwise the dial is counted as skipped_*. A stall by a hanging endpoint lasts > 60 s (tcp_syn_retries=6), the hanging resolver forever: 5 s slack cannot be confused with it")
 	r.Assume("error identity of a resolver failure (returned unwrapped by TCPDialer) is not judged; only that the dial comes back in time and without a connection")
@@ -796,6 +796,23 @@ func TestC41(t *testing.T) {
 	go synSampler(stop, done)
 
 	n := r.N(200, 5000)
+	// resolution + connect under one deadline: 9 dials of ~6 s, run alongside everything else
+	var bg sync.WaitGroup
+	nSplit := 0
+	for _, state := range []string{"miss", "flush", "refresh"} {
+		for _, frac := range []float64{0.3, 0.5, 0.75} {
+			idx, slot := n+nSplit, nSplit
+			nSplit++
+			if !r.Want(idx) {
+				continue
+			}
+			bg.Add(1)
+			go func() {
+				defer bg.Done()
+				runDeadlineSplit(r, idx, slot, frac, state)
+			}()
+		}
+	}
 	workers := 24
 	if r.Thorough() {
 		workers = 16 // runs under -race: fewer scenarios at once keep goroutine latencies sane
@@ -810,6 +827,7 @@ func TestC41(t *testing.T) {
 		}
 		r.Event("scenarios", 1)
 	})
+	bg.Wait()
 	close(stop)
 	<-done
 	r.Event("proc_net_tcp_samples", int(samples.Load()))
@@ -821,5 +839,6 @@ func TestC41(t *testing.T) {
 		r.Require("slots_acquired", n*4)
 		r.Require("scenarios_reaching_N_in_flight", n/4)
 		r.Require("rotation_sequences_judged", n/20)
+		r.Require("split_dials_judged", nSplit*2/3)
 	}
 }
